@@ -276,6 +276,38 @@ def cut_parameters_ctor(ctx):
             + "\n  ".join(out) + "\n}\n")
 
 
+# total number of rewrite hits per function on the pinned tree (rules are pure rewrites; see the deviation policy in tools/README.md)
+PINNED_HITS = {
+    "ForceCache::allocate": 4,
+    "ForceCache::setToZero": 3,
+    "ForceCache::setToNaN": 6,
+    "GravityImpl::getParameters": 1,
+    "GravityImpl::updParameters": 1,
+    "GravityImpl::getForceCache": 1,
+    "GravityImpl::updForceCache": 1,
+    "GravityImpl::isForceCacheValid": 1,
+    "GravityImpl::markForceCacheValid": 1,
+    "GravityImpl::invalidateForceCache": 1,
+    "GravityImpl::setMobodIsImmune": 5,
+    "GravityImpl::getMobodIsImmune": 4,
+    "Force::Gravity::getBodyIsExcluded": 1,
+    "Force::Gravity::getDownDirection": 2,
+    "Force::Gravity::getMagnitude": 2,
+    "Force::Gravity::getZeroHeight": 2,
+    "Force::GravityImpl::ensureForceCacheValid": 32,
+    "Force::GravityImpl::realizeTopology": 25,
+    "Force::GravityImpl::calcForce": 4,
+    "Force::GravityImpl::calcPotentialEnergy": 4,
+    "Force::Gravity::getPotentialEnergy": 3,
+    "Force::Gravity::getBodyForces": 4,
+    "Force::Gravity::getBodyForce": 2,
+    "Force::Gravity::setBodyIsExcluded": 13,
+    "Force::Gravity::setGravityVector": 16,
+    "Force::Gravity::setDownDirection": 8,
+    "Force::Gravity::setMagnitude": 9,
+    "Force::Gravity::setZeroHeight": 5,
+}
+
 LOOP_MACROS = r'''
 /* loop contracts (spliced between the loop header and its body by the generator) */
 #define ENSURE_LOOP_CONTRACT \
@@ -327,6 +359,12 @@ def build_unit(ctx):
                     raise ExtractionError("%s: expected exactly one loop after slicing, found %d" % (name, len(left)))
             elif len(left) != 1:
                 raise ExtractionError("%s: expected exactly one loop, found %d" % (name, len(left)))
+        hits = sum(x.get("hits", 0) for x in r.log if "deviation" not in x)
+        if PINNED_HITS.get(name) is not None and hits != PINNED_HITS[name]:
+            # deviation policy (tools/README.md): pure rewrites fire as often as the text needs; a count that differs from the pinned
+            # tree's is logged and the extraction continues (the contract decides); unrewritable text fails to compile (UNDECIDED)
+            r.log.append(dict(rule="total rewrite hits of the function", pattern="*", hits=hits,
+                              deviation="%d rewrite hits, %d on the pinned tree (tree differs from the pinned one)" % (hits, PINNED_HITS[name])))
         ctx.add_function(path, name, c.start, c.end, c.text, "M2", r.dropped, r.log)
         parts.append("/* %s  (%s:%d-%d) */\n%s\n{%s}\n" % (name, os.path.relpath(path, REPO), c.start, c.end, sig, r.text))
     parts.append('#include "%s/gravity_harness.h"' % SPEC)
@@ -338,10 +376,10 @@ def build_unit(ctx):
 ARGS = ["--bounds-check", "--pointer-check", "--signed-overflow-check", "--object-bits", "10"]
 STUBS_ = ["vf_pe_sub_term", "BoolArray_resize", "BoolArray_copy_construct", "SVArray_resize", "SVArray_setToZero", "SVArray_setToNaN", "SVArray_plusEq"]
 SETTERS = ["G_setBodyIsExcluded", "G_setMagnitude", "G_setZeroHeight", "G_setDownDirection", "G_setGravityVector"]
-INVP = [r"postcondition\.%d$" % i for i in range(1, 5)]
+CEX_VARS = ("gj", "m", "b", "g", "z", "d", "v", "nb", "np", "ghost_threw", "g_norm", "g_unit", "g_defimm", "g_w2", "g_x2", "g_dn2", "g_mb2", "g_ex2", "g_g1")
 
 
-def units(unit_c):
+def units(unit_c, tier="quick"):
     """(unit name, harness, enforced function, replaced contracts, loop contracts?, required property regexes, cc args, real function)"""
     U = []
     def u(name, h, enf, repl, loops=False, req=(), cc=(), fn=None, minob=5):
@@ -350,7 +388,7 @@ def units(unit_c):
     u("ForceCache.setToNaN", "h_FC_setToNaN", "FC_setToNaN", [], req=[r"postcondition\.3$"], fn="ForceCache::setToNaN")
     u("ForceCache.allocate", "h_FC_allocate", "FC_allocate", ["FC_setToZero", "FC_setToNaN"], req=[r"postcondition\.4$"], fn="ForceCache::allocate")
     u("Parameters.ctor", "h_Parameters_ctor", "Parameters_ctor", [], req=[r"postcondition\.3$"], fn="GravityImpl::Parameters::Parameters")
-    u("setMobodIsImmune", "h_setMobodIsImmune", "GI_setMobodIsImmune", [], req=[r"postcondition\.3$"], fn="GravityImpl::setMobodIsImmune")
+    u("setMobodIsImmune", "h_setMobodIsImmune", "GI_setMobodIsImmune", [], req=[r"postcondition\.4$"], fn="GravityImpl::setMobodIsImmune")
     u("realizeTopology", "h_realizeTopology", "GI_realizeTopology", ["FC_allocate", "Parameters_ctor"], loops=True,
       req=[r"postcondition\.9$", r"loop_invariant_base", r"loop_invariant_step"], fn="Force::GravityImpl::realizeTopology")
     u("ensureForceCacheValid", "h_ensureForceCacheValid", "GI_ensureForceCacheValid", [], loops=True,
@@ -361,16 +399,17 @@ def units(unit_c):
     u("getPotentialEnergy", "h_getPotentialEnergy", "G_getPotentialEnergy", E, req=[r"postcondition\.6$"], fn="Force::Gravity::getPotentialEnergy")
     u("calcForce", "h_calcForce", "GI_calcForce", E, req=[r"postcondition\.6$"], fn="Force::GravityImpl::calcForce")
     u("calcPotentialEnergy", "h_calcPotentialEnergy", "GI_calcPotentialEnergy", E, req=[r"postcondition\.6$"], fn="Force::GravityImpl::calcPotentialEnergy")
-    u("setBodyIsExcluded", "h_setBodyIsExcluded", "G_setBodyIsExcluded", ["GI_setMobodIsImmune"], req=[r"postcondition\.11$"], fn="Force::Gravity::setBodyIsExcluded")
-    u("setBodyIsExcluded.ground", "h_setBodyIsExcluded", "G_setBodyIsExcluded", ["GI_setMobodIsImmune"], req=[r"postcondition\.11$"], cc=["-DGROUND_CASE"], fn="Force::Gravity::setBodyIsExcluded")
-    u("setMagnitude", "h_setMagnitude", "G_setMagnitude", ["FC_setToZero"], req=[r"postcondition\.12$"], fn="Force::Gravity::setMagnitude")
-    u("setZeroHeight", "h_setZeroHeight", "G_setZeroHeight", [], req=[r"postcondition\.11$"], fn="Force::Gravity::setZeroHeight")
-    u("setDownDirection", "h_setDownDirection", "G_setDownDirection", [], req=[r"postcondition\.12$"], fn="Force::Gravity::setDownDirection")
-    u("setGravityVector", "h_setGravityVector", "G_setGravityVector", ["FC_setToZero"], req=[r"postcondition\.11$"], fn="Force::Gravity::setGravityVector")
+    u("setBodyIsExcluded", "h_setBodyIsExcluded", "G_setBodyIsExcluded", ["GI_setMobodIsImmune"], req=[r"postcondition\.13$"], fn="Force::Gravity::setBodyIsExcluded")
+    u("setBodyIsExcluded.ground", "h_setBodyIsExcluded", "G_setBodyIsExcluded", ["GI_setMobodIsImmune"], req=[r"postcondition\.13$"], cc=["-DGROUND_CASE"], fn="Force::Gravity::setBodyIsExcluded")
+    u("setMagnitude", "h_setMagnitude", "G_setMagnitude", ["FC_setToZero"], req=[r"postcondition\.13$"], fn="Force::Gravity::setMagnitude")
+    u("setZeroHeight", "h_setZeroHeight", "G_setZeroHeight", [], req=[r"postcondition\.12$"], fn="Force::Gravity::setZeroHeight")
+    u("setDownDirection", "h_setDownDirection", "G_setDownDirection", [], req=[r"postcondition\.13$"], fn="Force::Gravity::setDownDirection")
+    u("setGravityVector", "h_setGravityVector", "G_setGravityVector", ["FC_setToZero"], req=[r"postcondition\.13$"], fn="Force::Gravity::setGravityVector")
     A = SETTERS + ["G_getBodyForce", "G_getPotentialEnergy"]
     u("lemma.exclude_zero_reinclude", "h_L1", "L_exclude_zero_reinclude", A, req=[r"postcondition\.2$"], fn="composition: setBodyIsExcluded(j,true); setMagnitude(0); setBodyIsExcluded(j,false); getBodyForce(j)")
-    u("lemma.zero_exclude_restore_include", "h_L2", "L_zero_exclude_restore_include", A, req=[r"postcondition\.2$"], fn="composition: setMagnitude(0); exclude j; setMagnitude(g1); include j; getBodyForce(j)")
-    u("lemma.two_setters_then_get", "h_L3", "L_two_setters_then_get", A, req=[r"postcondition\.8$"], fn="composition: any two State-based setters; getPotentialEnergy; getBodyForce(j)")
+    if tier == "thorough":
+      u("lemma.zero_exclude_restore_include", "h_L2", "L_zero_exclude_restore_include", A, req=[r"postcondition\.2$"], fn="composition: setMagnitude(0); exclude j; setMagnitude(g1); include j; getBodyForce(j)")
+    u("lemma.any_setter_then_get", "h_L3", "L_any_setter_then_get", A, req=[r"postcondition\.8$"], fn="composition: any State-based setter; getPotentialEnergy; getBodyForce(j)")
     return U
 
 
@@ -381,10 +420,10 @@ def run(ctx, workers=4):
         ctx.undecide("extraction (gravity caching): %s" % e)
         return None
     jobs = []
-    for d in units(unit_c):
+    for d in units(unit_c, ctx.tier):
         jobs.append(lambda d=d: cbmc_unit(ctx, d["name"], [unit_c], d["h"], enforce=d["enf"], replace=d["repl"], loop_contracts=d["loops"],
                                           cbmc_args=ARGS, cc_args=d["cc"], require_props=d["req"], min_obligations=d["minob"],
-                                          function=d["fn"], timeout=300))
+                                          function=d["fn"], timeout=300, cex_vars=CEX_VARS))
     jobs.append(lambda: cover_unit(ctx, "gravity.cover", [unit_c], "h_cover", cc_args=["-DCOVER_ONLY"], expect_min=9, function="INV / contract preconditions"))
     parallel(jobs, workers=workers)
     ctx.assume("Gravity caching unit: the floating-point VALUE of a body force / of the potential energy is abstracted by a tagged value "
@@ -418,9 +457,11 @@ def replay(ctx, ob):
     if "exe" not in _exe:
         _exe["exe"] = native_build(ctx, "c38_gravity_replay", os.path.join(VERIF, "replay/c38_gravity_replay.cpp"), libs=True,
                                    extra_srcs=[os.path.join(SRC, "Force.cpp"), G_CPP], extra_inc=[SRC])
-    rc, o, e, t = vlib.run([_exe["exe"], str(ctx.seed)], 120)
+    # the Ground unit is replayed by the Ground scenario only; every other unit by the scenarios that never touch Ground's flag
+    mode = "ground" if ob.unit == "gravity.setBodyIsExcluded.ground" else "main"
+    rc, o, e, t = vlib.run([_exe["exe"], str(ctx.seed), mode], 120)
     rep = re.search(r"^REPRODUCED:", o, re.M) is not None
-    first = [l for l in o.splitlines() if l.startswith("MISMATCH") or l.startswith("REPRODUCED")]
-    wc = "ground-force-NaN-after-setBodyIsExcluded(Ground,false)" if all("[ground]" in l for l in first if l.startswith("MISMATCH")) and first else "stale-or-NaN-gravity-cache-after-parameter-change"
-    return dict(cmd="c38_gravity_replay %d (real Force::Gravity: setter sequences vs a fresh state with the same parameters and vs m*g*d)" % ctx.seed,
-                output="\n".join(first[:12]) + "\n...\n" + o[-1200:], witness_class=wc), rep
+    lines = [l for l in o.splitlines() if l.startswith("MISMATCH") or l.startswith("REPRODUCED") or l.startswith("NOT-REPRODUCED") or l.startswith("exception")]
+    wc = "ground-force-NaN-after-setBodyIsExcluded(Ground,false)" if mode == "ground" else "stale-or-NaN-gravity-cache-after-parameter-change"
+    return dict(cmd="c38_gravity_replay %d %s (real Force::Gravity: State-based setter sequences vs the documented m*g*d / 0 values and vs a fresh state)" % (ctx.seed, mode),
+                output="\n".join(l[:600] for l in lines[:8]), witness_class=wc), rep
